@@ -244,7 +244,7 @@ def finalize(m):
 
 def run(ctx):
     thorough = ctx.tier == "thorough"
-    n = (10000 if thorough else 260) // ctx.nshards
+    n = (100000 if thorough else 260) // ctx.nshards
     for j in range(n):
         r = ctx.rng("c18", j)
         case = gridcases.gen_case(r, max_cells=12, max_mag=4, max_events=25, rate_lo=-4, rate_hi=1, events_in_zero=(j % 5 == 0),
@@ -258,7 +258,7 @@ def run(ctx):
         if j % 40 == 0:
             ctx.sample({"gridded_case": {"cells": len(case["rates"]), "mags": case["nmag"], "events": len(case["ev_cell"])},
                         "catalog_forecast_sizes": [len(c) for c in fc["cats"]], "observed": "empty" if j % 3 == 0 else len(fc["obs"])})
-    for j in range((3000 if thorough else 100) // ctx.nshards):
+    for j in range((30000 if thorough else 100) // ctx.nshards):
         r = ctx.rng("c18r", j)
         case = c01.gen_lattice(r, force=int(r.integers(0, 8)))
         case["flags"] = None
